@@ -81,7 +81,7 @@ def msgDeposit (s : St) (ctx : Ctx) (pw : Option Int) : Res :=
   | .err => .err
   | .panic => .panic
 
-/-- the repair of defect D36 (notes/C18.md; NOT what the code does): the message writes the flag while the fee is zero, as
+/-- the repair of defect D46 (notes/C18.md; NOT what the code does): the message writes the flag while the fee is zero, as
 `MsgCreate` does. The driver accepts it as well as `msgDeposit`, so that a repaired tree checks clean. -/
 def msgDepositFix (s : St) (ctx : Ctx) (pw : Option Int) : Res :=
   match msgCalc s ctx pw with
